@@ -13,6 +13,7 @@ Engine E.  A probe addon with `str`, `str, str` and `*args: str` commands is reg
 """
 from __future__ import annotations
 
+import gc
 import itertools
 import re
 
@@ -245,6 +246,8 @@ def run(ctx):
     lines = [("l", "t.var " + w) for w in strings_upto(LINE_ALPHA, n3)]
     cases += lines
     ctx.log("cases: %d single arguments, %d pairs, %d raw lines" % (n_one, n_two, len(lines)))
+    gc.collect()
+    gc.freeze()  # forked workers then do not copy the parent's heap on every collection
     par.pmap_tally(chunk, cases, ctx.tally)
     ctx.info["cases_single"] = n_one
     ctx.info["cases_pairs"] = n_two
